@@ -15,6 +15,7 @@ import (
 	"verifmc/demonwire"
 	"verifmc/ev"
 	"verifmc/par"
+	"verifmc/pivreg"
 	"verifmc/seam"
 )
 
@@ -568,6 +569,13 @@ func Run(r *ev.Run) {
 	r.Bounds["chains"] = len(jobs)
 	if _, _, worker := par.Shard(); !worker {
 		runLinkHistory(r)
+		// a session that is being registered behind a parent while an operator already
+		// tasks it: every interleaving within the preemption bound (instrumented build)
+		b, dl := 2, 2*time.Minute
+		if r.Thorough() {
+			b, dl = 3, 8*time.Minute
+		}
+		pivreg.Run(r, b, dl)
 	}
 	par.RunStrict(r, par.Workers(), 8*time.Minute, func(i, n int, r *ev.Run) {
 		for ji, j := range jobs {
